@@ -275,7 +275,10 @@ def run_model(ctx, prop, stream, cases, results):
 
         def one(job):
             k, path = job
+            t0 = time.time()
             rc, out, err = coqc_file(path, timeout=int(stream.get("coq_timeout", 900)))
+            if os.environ.get("VERIF_DEBUG"):
+                sys.stderr.write("shard %s: %.1fs\n" % (os.path.basename(path), time.time() - t0))
             return k, rc, out, err
 
         with cf.ThreadPoolExecutor(max_workers=int(os.environ.get("VERIF_JOBS", "8"))) as ex:
